@@ -111,20 +111,31 @@ class DilutionPlan:
                 break
 
         # prepare remaining columns by diluting existing ones
+        # (keeping track of the volume that was already promised to other columns)
+        v_drawn = numpy.zeros((C, R))
         for c in range(len(instructions), C):
             # find the first source column that can be used (with sufficient transfer volume)
             for src_c in range(0, len(instructions)):
                 _, src_df, _, _ = instructions[src_c]
                 vtransfer = numpy.ceil(vmax_arr[c] * ideal_targets[:, c] / actual_targets[src_c])
-                # take the leftmost column (least dilution steps) where the minimal transfer volume is exceeded
-                if all(vtransfer >= min_transfer):
+                # take the leftmost column (least dilution steps) where the minimal transfer volume is exceeded,
+                # the transfer fits into the target and the source column still holds enough volume
+                if (
+                    all(vtransfer >= min_transfer)
+                    and all(vtransfer <= vmax_arr[c])
+                    and all(v_drawn[src_c] + vtransfer <= vmax_arr[src_c])
+                ):
                     instructions.append(
                         # increment the dilution step counter
                         (c, src_df + 1, src_c, vtransfer)
                     )
+                    v_drawn[src_c] += vtransfer
                     # compute the actually achieved target concentration
                     actual_targets.append(vtransfer * actual_targets[src_c] / vmax_arr[c])
                     break
+            else:
+                # no column can be used as a source: the plan is impossible (see error below)
+                break
 
         if len(actual_targets) < C:
             message = (
